@@ -381,7 +381,10 @@ def main():
     replay_path = None
     if unknown:
         # prefer genuine property failures over bare model/implementation disagreements
+        # ... and, where a check re-runs its failures in a new interpreter, those that reproduce from
+        # the replay file alone over those that were only seen in the session of this run
         unknown.sort(key=lambda f: (0 if f.get("kind", "violation") == "violation" else 1,
+                                    1 if f.get("standalone") in ("unverified", "not-reproduced") else 0,
                                     len(json.dumps(f.get("input", ""), default=str))))
         f = unknown[0]
         genuine = f.get("kind", "violation") == "violation"
